@@ -1665,15 +1665,17 @@ static int cif_buf_write(write_buffer_tp *buf, const void *src, size_t len) {
         do {
             proposed_cap = (working_cap * 3) >> 1;
 
-            if (proposed_cap < working_cap) { /* overflow */
+            if (proposed_cap <= working_cap) { /* overflow, or no growth from a tiny capacity */
                 /* fall back to requesting only what is imminently needed */
                 proposed_cap = needed_cap;
             }
+            working_cap = proposed_cap;
         } while (proposed_cap < needed_cap);
 
         /* reallocate the buffer space */
         new_start = (char *) realloc(buf->start, proposed_cap);
         if ((new_start == NULL) && (needed_cap < proposed_cap)) {
+            proposed_cap = needed_cap;
             new_start = (char *) realloc(buf->start, needed_cap);
         }
 
@@ -1681,6 +1683,7 @@ static int cif_buf_write(write_buffer_tp *buf, const void *src, size_t len) {
             return CIF_MEMORY_ERROR;
         } else {
             buf->start = new_start;
+            buf->capacity = proposed_cap;
         }
     }
 
